@@ -13,7 +13,7 @@ Open Scope Z_scope.
 (* str_roundtrip: for every start and keyword arguments the constructor accepts, within
      wf_start_kw: naive valid start (years 1..9999), freq / wkst / weekdays in RFC range, naive until
                   in whole seconds;
-     wf_args:     no empty BY tuple, no 0 in BYMONTHDAY, weekday n <> 0;
+     wf_args:     no empty BY tuple, weekday n <> 0 (BYMONTHDAY=0 is a ValueError of the constructor since 55654b4);
      0 <= e_fwd <= 6 and (e_fwd = 0 \/ r_wkst r <> 0):  calendar.firstweekday() is unchanged, or the rule's
                   week start is not MO -- exactly the complement of finding F-C13-c (__str__ omits WKST only
                   when it is 0; the constructor's default is calendar.firstweekday()),
@@ -507,13 +507,13 @@ Print Assumptions C13_gen_error_classes.
    RRIter.iterate; and the round trip of C13_str_roundtrip is a statement about occurrences. *)
 From V Require rr.RRBase rr.RRNorm rstr.RstrBridge.
 
-Theorem C13_bridge_ctor_is_normalize : forall ev st kw r, ctor ev (Some st) kw = Ok r ->
+Theorem C13_bridge_ctor_is_normalize : forall ev st kw r, ctor ev (Some st) kw = Ok r -> dd st <> 0 ->
   exists raw, RstrBridge.raw_of ev st kw = Some raw /\ RRNorm.normalize raw = RRBase.Ok (RstrBridge.rule_of r).
 Proof. exact RstrBridge.ctor_is_normalize. Qed.
 Print Assumptions C13_bridge_ctor_is_normalize.
 
 Theorem C13_bridge_same_state_same_occurrences : forall ev st kw st' kw' r,
-  ctor ev (Some st) kw = Ok r -> ctor ev (Some st') kw' = Ok r ->
+  ctor ev (Some st) kw = Ok r -> ctor ev (Some st') kw' = Ok r -> dd st <> 0 -> dd st' <> 0 ->
   exists raw raw' rl rl',
     RstrBridge.raw_of ev st kw = Some raw /\ RstrBridge.raw_of ev st' kw' = Some raw' /\
     RRNorm.normalize raw = RRBase.Ok rl /\ RRNorm.normalize raw' = RRBase.Ok rl' /\ rl = rl' /\
